@@ -317,5 +317,6 @@ def run_case(case, ctx):
     ctx.seen("architectures", (kind, nv, nh))
     ctx.seen("scale_classes", case["cls"])
     ctx.seen("max_abs_logp_decade", int(np.log10(1 + np.max(np.abs(la_ref)))))
+    gen.scribble_spaces(st, nv)  # tensors handed out are the caller's: nothing later may depend on them
     ctx.sample({"case": case, "am": gen.small_params(am), "ph": gen.small_params(ph),
                 "Z": Z_l, "max_abs_log_p": float(np.max(np.abs(la_ref)))})
